@@ -178,7 +178,7 @@ theorem consume_post (tt : TT) (hne : tt ≠ .eof) (rep s) :
 
 /-! ## the tokens a parser function moved over -/
 
-/-- between `s` and `s'` the cursor moved over exactly the tokens `c`; the admission flags are kept -/
+/-- between `s` and `s'` the cursor moved over exactly the tokens `c`; the scope flags are kept -/
 structure Consumed (s s' : PState) (c : List Token) : Prop where
   before : s'.before = c.reverse ++ s.before
   after : s.after = c ++ s'.after
